@@ -80,6 +80,15 @@ func vC05tRead(t *objectTree) ([]string, error) {
 	return out, err
 }
 
+// id of the ACL record that introduced the n-th read key generation (1 = the root)
+func recsOrRoot(root *consensusproto.RawRecordWithId, recs []*consensusproto.RawRecordWithId, n int) string {
+	if n == 1 {
+		return root.Id
+	}
+	// recs[0] is the accounts-add record; every later one is a rotation
+	return recs[n-1].Id
+}
+
 // VerifC05Tree: content added as encrypted is stored and sent only as ciphertext under the tree key derived from the
 // read key its read-key id names, current members read it back, an account without the key does not, and building an
 // encrypted change without a key fails.
@@ -95,12 +104,16 @@ func VerifC05Tree() {
 	ownAcl := vC05tAcl(aclRoot, "own", nil)
 	gens := []string{raw0}
 
-	// a is admitted as a writer; optionally the key is rotated before / after the content is written
+	// a is admitted as a writer; the writer's tree is open while keys rotate around its writes
 	var recs []*consensusproto.RawRecordWithId
+	var views []list.AclList
 	add := func(raw *consensusproto.RawRecord, err error) {
 		rt.Assert(err == nil, "acl-record-builds")
 		r := vC05tWrap(raw)
 		rt.Assert(ownAcl.AddRawRecord(r) == nil, "owner-accepts-own-record")
+		for _, v := range views {
+			rt.Assert(v.AddRawRecord(r) == nil, "member-accepts-the-record")
+		}
 		recs = append(recs, r)
 	}
 	add(ownAcl.RecordBuilder().BuildAccountsAdd(list.AccountsAddPayload{Additions: []list.AccountAdd{{Identity: list.VerifPub("a"), Permissions: list.AclPermissionsWriter, Metadata: []byte("m")}}}))
@@ -109,12 +122,11 @@ func VerifC05Tree() {
 		add(ownAcl.RecordBuilder().BuildReadKeyChange(list.ReadKeyChangePayload{MetadataKey: mk, ReadKey: rk}))
 		gens = append(gens, raw)
 	}
-	when := rt.Choose(3) // 0: no rotation, 1: rotation before the content, 2: rotation after it
-	if when == 1 {
-		rotate()
-	}
+	// schedule: R = rotation, W = encrypted write on the open tree
+	schedule := []string{"W", "RW", "WR", "WRW", "RWRW", "WRRW"}[rt.Choose(6)]
 	writer := []string{"own", "a"}[rt.Choose(2)]
 	aAcl := vC05tAcl(aclRoot, "a", recs)
+	views = append(views, aAcl)
 	writerAcl := ownAcl
 	if writer == "a" {
 		writerAcl = aAcl
@@ -122,43 +134,58 @@ func VerifC05Tree() {
 
 	treeRoot, err := CreateObjectTreeRoot(ObjectTreeCreatePayload{PrivKey: own, ChangeType: "t", SpaceId: "space", IsEncrypted: true, Seed: []byte("s"), Timestamp: 1}, ownAcl)
 	rt.Assert(err == nil, "tree-root-builds")
-	wt := vC05tTree(treeRoot, writerAcl)
-	res, err := wt.AddContent(ctx, SignableChangeContent{Data: []byte("secret"), Key: list.VerifPriv(writer), ShouldBeEncrypted: true, Timestamp: 2, DataType: "d"})
-	rt.Assert(err == nil && len(res.Added) == 1, "encrypted-content-is-added")
-	if err != nil {
-		return
-	}
-	sent := res.Added[0].RawTreeChangeWithId()
-	tc := vC05tPayload(sent)
-	curId := writerAcl.AclState().CurrentReadKeyId()
-	rt.Assert(tc.ReadKeyId == curId, "change-names-the-current-read-key")
-	// the tree key is the (modelled) derivation of the newest generation: "K.." -> "T.."
-	want := []byte(gens[len(gens)-1])
-	want[0] = 'T'
-	rt.Assert(string(tc.ChangesData) == "A("+string(want)+")secret", "sent-bytes-are-ciphertext-under-the-named-key")
-	stored, err := wt.storage.Get(ctx, sent.Id)
-	rt.Assert(err == nil && string(stored.RawChange) == string(sent.RawChange), "stored-bytes-are-the-sent-bytes")
-	// (the modelled ciphertext and the modelled signature both wrap their input literally, so searching the raw
-	// bytes for the plaintext says nothing: the claim is the equality above, field by field)
-	rt.Assert(tc.AclHeadId == writerAcl.Head().Id && len(tc.TreeHeadIds) == 1 && tc.TreeHeadIds[0] == treeRoot.Id, "change-cites-acl-head-and-tree-heads")
-	if when == 2 {
-		rotate()
+	wt := vC05tTree(treeRoot, writerAcl) // opened before any rotation of the schedule
+	var sentAll []*treechangeproto.RawTreeChangeWithId
+	var texts []string
+	for i := 0; i < len(schedule); i++ {
+		if schedule[i] == 'R' {
+			rotate()
+			continue
+		}
+		text := "secret" + string(rune('0'+len(texts)))
+		heads := wt.Heads()
+		res, err := wt.AddContent(ctx, SignableChangeContent{Data: []byte(text), Key: list.VerifPriv(writer), ShouldBeEncrypted: true, Timestamp: 2, DataType: "d"})
+		rt.Assert(err == nil && len(res.Added) == 1, "encrypted-content-is-added")
+		if err != nil {
+			return
+		}
+		sent := res.Added[0].RawTreeChangeWithId()
+		tc := vC05tPayload(sent)
+		rt.Assert(tc.ReadKeyId == writerAcl.AclState().CurrentReadKeyId() && tc.ReadKeyId == recsOrRoot(aclRoot, recs, len(gens)), "change-names-the-current-read-key")
+		// the tree key is the (modelled) derivation of the newest generation: "K.." -> "T.."
+		want := []byte(gens[len(gens)-1])
+		want[0] = 'T'
+		rt.Assert(string(tc.ChangesData) == "A("+string(want)+")"+text, "sent-bytes-are-ciphertext-under-the-named-key")
+		stored, err := wt.storage.Get(ctx, sent.Id)
+		rt.Assert(err == nil && string(stored.RawChange) == string(sent.RawChange), "stored-bytes-are-the-sent-bytes")
+		// (the modelled ciphertext and the modelled signature both wrap their input literally, so searching the raw
+		// bytes for the plaintext says nothing: the claim is the equality above, field by field)
+		rt.Assert(tc.AclHeadId == writerAcl.Head().Id && len(tc.TreeHeadIds) == len(heads) && tc.TreeHeadIds[0] == heads[0], "change-cites-acl-head-and-tree-heads")
+		sentAll = append(sentAll, sent)
+		texts = append(texts, text)
 	}
 
-	// every current member reads the original back; an account without the key reads nothing
-	payload := RawChangesPayload{NewHeads: []string{sent.Id}, RawChanges: []*treechangeproto.RawTreeChangeWithId{sent}}
+	// every current member reads the originals back; an account without the key reads nothing
+	payload := RawChangesPayload{NewHeads: []string{sentAll[len(sentAll)-1].Id}, RawChanges: sentAll}
 	for _, reader := range []string{"own", "a", "c"} {
 		racl := vC05tAcl(aclRoot, reader, recs)
 		rtree := vC05tTree(treeRoot, racl)
 		_, err := rtree.AddRawChanges(ctx, payload)
-		rt.Assert(err == nil, "reader-accepts-the-change")
+		rt.Assert(err == nil, "reader-accepts-the-changes")
 		got, err := vC05tRead(rtree)
 		if reader == "c" {
 			rt.Assert(err != nil && len(got) == 0, "account-without-the-key-reads-nothing")
 			continue
 		}
-		rt.Assert(err == nil && len(got) == 1 && got[0] == "secret", "member-reads-the-original")
+		rt.Assert(err == nil && len(got) == len(texts), "member-reads-every-change")
+		for i := range got {
+			rt.Assert(got[i] == texts[i], "member-reads-the-original")
+		}
 	}
+	// the writer's own open tree reads them back too
+	got, err := vC05tRead(wt)
+	rt.Assert(err == nil && len(got) == len(texts), "writer-reads-its-own-changes")
+	sent := sentAll[len(sentAll)-1]
 
 	// building an encrypted change without a key fails instead of emitting plaintext
 	_, raw, err := wt.changeBuilder.Build(BuilderContent{TreeHeadIds: []string{sent.Id}, AclHeadId: ownAcl.Head().Id, SnapshotBaseId: treeRoot.Id,
